@@ -1,15 +1,15 @@
-\* (M) as built, 2 processes x 2 threads: no partial read, no wrong answer, mutual exclusion per process
+\* (M) as built, 2 processes x 2 threads, 1 row group: no partial read, no wrong answer, mutual exclusion per process
 CONSTANTS NProcs = 2
           ThreadsPer = 2
           AutoProcs = {}
-          NRg = 2
+          NRg = 1
           Inits = {0, 1, 2}
           Variant = 0
           AtomicRemove = FALSE
           EmitOn = FALSE
           Sim = FALSE
 INIT Init
-NEXT Next
+NEXT NextAll
 INVARIANT TypeOk
 INVARIANT NoPartialRead
 INVARIANT NoWrongAnswer
